@@ -243,9 +243,11 @@ func RefreshRoots() []EngineRoot {
 // ("live|" = the session object is kept; otherwise it is marshalled and read back before the resume;
 // env:far = the resume carries an environment in a timezone where the calendar day differs)
 // env:mid = a timezone in which the contacts' creation instant is exactly a local midnight
+// "stale-none|", "stale-all|": the session is read back with a stored membership of the query-based
+// groups that is stale (none / all of them), as after the groups' queries were edited meanwhile
 // "again": a second session started with the very contact object the first trigger holds
 // "!expire": the environment arrives with a run_expiration resume, which brings neither message nor contact
-var Histories = [][]string{{}, {"msg:Dog"}, {"refresh:Dog"}, {"env:far:Dog"}, {"live|env:far:Dog"}, {"env:mid:Dog"}, {"env:far:!expire"}, {"live|env:far:!expire"}, {"expire"}, {"again"}}
+var Histories = [][]string{{}, {"msg:Dog"}, {"refresh:Dog"}, {"env:far:Dog"}, {"live|env:far:Dog"}, {"env:mid:Dog"}, {"env:far:!expire"}, {"live|env:far:!expire"}, {"expire"}, {"again"}, {"stale-none|expire"}, {"stale-all|expire"}, {"stale-all|msg:Dog"}}
 
 // SprintObs is what one engine call exposes to the contact-family oracles.
 type SprintObs struct {
@@ -325,7 +327,54 @@ func Execute(r *EngineRoot, hist []string) ([]*SprintObs, error) {
 			}
 			live := strings.HasPrefix(ev, "live|")
 			ev = strings.TrimPrefix(ev, "live|")
-			if !live {
+			stale := ""
+			for _, k := range []string{"none", "all"} {
+				if strings.HasPrefix(ev, "stale-"+k+"|") {
+					stale, ev = k, strings.TrimPrefix(ev, "stale-"+k+"|")
+				}
+			}
+			if stale != "" {
+				// the stored session's contact carries a membership of the query-based groups that is stale
+				// (as after the groups' queries were edited while the session was stored): none of them, or
+				// all of them; static groups are kept
+				b, err := json.Marshal(x.Session)
+				if err != nil {
+					herr = err
+					return
+				}
+				var doc map[string]any
+				json.Unmarshal(b, &doc)
+				cj, _ := doc["contact"].(map[string]any)
+				if cj == nil {
+					herr = fmt.Errorf("session JSON has no contact")
+					return
+				}
+				isQ := map[string]bool{}
+				for i := range QueryGroups {
+					isQ[QGroupUUID(i)] = true
+				}
+				gs := []any{}
+				if old, ok := cj["groups"].([]any); ok {
+					for _, g := range old {
+						if gm, ok := g.(map[string]any); ok && !isQ[fmt.Sprint(gm["uuid"])] {
+							gs = append(gs, g)
+						}
+					}
+				}
+				if stale == "all" {
+					for i := range QueryGroups {
+						gs = append(gs, J{"uuid": QGroupUUID(i), "name": QueryGroups[i].Name})
+					}
+				}
+				cj["groups"] = gs
+				nb, _ := json.Marshal(doc)
+				s, err := x.Eng.ReadSession(x.SA, nb, assets.IgnoreMissing)
+				if err != nil {
+					herr = fmt.Errorf("read of the session with stale membership: %w", err)
+					return
+				}
+				x.Session = s
+			} else if !live {
 				if err := x.Restart(); err != nil {
 					herr = err
 					return
@@ -344,6 +393,9 @@ func Execute(r *EngineRoot, hist []string) ([]*SprintObs, error) {
 			call := ev
 			if live {
 				call = "live-" + ev
+			}
+			if stale != "" {
+				call = "stale-" + stale + "-" + ev
 			}
 			observe(call, x, before, it)
 		}
